@@ -11,7 +11,25 @@ def families(ctx, rng):
     keys = pipes.all_placements()
     if ctx.tier == "quick":
         keys = rng.sample(keys, 64)
-    return pipes.make_family_items(rng, "placement", keys, lambda k: pipes.placement_scenario(*k))
+    items = pipes.make_family_items(rng, "placement", keys, lambda k: pipes.placement_scenario(*k))
+    # the "own object" and "settable / compared attribute" faults in every variant and in both reference spellings
+    # (their detection goes through reference normalisation)
+    import random, engine, scenario as S, mutators as M
+    n = 36 if ctx.tier == "quick" else 360
+    seen = {}
+    for i in range(n):
+        name = ("p_read_own_object", "p_filter_reads_own_object", "p_write_settable_attribute", "p_checkpoint_compares_written")[i % 4]
+        if name == "p_read_own_object":
+            pipes.OWN_KIND, pipes.OWN_LOCAL = ("app", "trav", "filter")[(i // 4) % 3], ((i // 12) % 3 == 2)
+        try:
+            s, nm, owner, desc = pipes.mutate_p(rng, only=(name,), threads=(i % 3 == 0))
+        finally:
+            pipes.OWN_KIND, pipes.OWN_LOCAL = None, None
+        g = "own%d" % i
+        for sp in ("id", "alias"):
+            r = {"spelling": sp, "shuffle": False, "descriptive": False, "seed": rng.randrange(1 << 30)}
+            items.append(engine.Item(s, S.render(s, random.Random(r["seed"]), sp, False, False), "mutant", mutator=nm, owner=owner, desc=desc, render=r, group=g))
+    return items
 
 
 def run(ctx):
